@@ -7,9 +7,10 @@
    Part B  line formatting: what one logging call hands to log.Logger and what log.Logger
            writes (label, timestamp, one space, text, final newline), per context kind.
    Part C  harness interface run_c18. *)
-From Verif Require Import Lib.Base Lib.Sx Lib.Sched.
-From Verif Require Import Gen.Gen_logger.
 From Coq Require Import String Ascii Sorting.Mergesort Orders.
+From Verif Require Import Gen.Gen_logger.
+From Verif Require Import Lib.Base Lib.Sx Lib.Sched.
+Import List ListNotations.
 Open Scope Z_scope.
 
 (* ------------------------------------------------------------------ Part A: allocation *)
